@@ -75,8 +75,16 @@ func (e *engine) step(i int, s Step) string {
 	case "create":
 		e.objs[s.Spec] = append(e.objs[s.Spec], hist.Build(e.c.Pool[s.Spec]))
 	case "create-sharing":
-		// a new root that is given the type objects of an existing object of the same spec
-		os := e.objs[s.Spec]
+		// a new root that is given the type objects of an existing object of the same spec - or of
+		// another spec of the same sharing group
+		os := append([]*hist.Obj{}, e.objs[s.Spec]...)
+		if g := e.c.Pool[s.Spec].Group; g != "" {
+			for j, sp := range e.c.Pool {
+				if j != s.Spec && sp.Group == g {
+					os = append(os, e.objs[j]...)
+				}
+			}
+		}
 		if len(os) == 0 {
 			return ""
 		}
@@ -132,6 +140,10 @@ func TestHistories(t *testing.T) {
 		for i := 0; i < n; i++ {
 			c.Pool = append(c.Pool, hist.DrawSpec(t, fmt.Sprint("s", i)))
 		}
+		if rapid.IntRange(0, 2).Draw(t, "twins") == 0 {
+			c.Pool = append(c.Pool, hist.DrawTwinSpecs(t, "tw")...)
+			run.Label("pool-with-roots-sharing-type-objects-but-not-their-definitions")
+		}
 		e := newEngine(c)
 		maxSteps := run.Scale(12, 40)
 		steps := rapid.IntRange(4, maxSteps).Draw(t, "steps")
@@ -140,11 +152,14 @@ func TestHistories(t *testing.T) {
 		lastSpec := -1
 		for i := 0; i < steps; i++ {
 			var s Step
-			s.Spec = rapid.IntRange(0, n-1).Draw(t, "spec")
+			s.Spec = rapid.IntRange(0, len(c.Pool)-1).Draw(t, "spec")
+			if len(c.Pool) > n && rapid.Bool().Draw(t, "twinStep") {
+				s.Spec = rapid.IntRange(n, len(c.Pool)-1).Draw(t, "twinSpec")
+			}
 			switch a := rapid.IntRange(0, 9).Draw(t, "action"); {
 			case a <= 1 || len(e.objs[s.Spec]) == 0:
 				s.Action = "create"
-			case a == 3 && c.Pool[s.Spec].Kind == "schema" && len(c.Pool[s.Spec].Schema.Types) > 0:
+			case (a == 3 || a == 4 && c.Pool[s.Spec].Group != "") && c.Pool[s.Spec].Kind == "schema" && len(c.Pool[s.Spec].Schema.Types) > 0:
 				s.Action = "create-sharing"
 				s.Obj = rapid.IntRange(0, 3).Draw(t, "shareFrom")
 				shared++
